@@ -244,6 +244,22 @@ def mutated_names(fn):
     return out
 
 
+CONTAINER_CALLS = {'dict', 'list', 'set', 'defaultdict', 'OrderedDict', 'deque', 'Counter', 'collections.defaultdict',
+                   'collections.OrderedDict', 'collections.deque', 'collections.Counter', 'bytearray'}
+
+
+def is_container_constructor(value):
+    """A fresh mutable container: an accumulator, whose defining expression says
+    nothing about its later content (it may be filled by callees)."""
+    if isinstance(value, (ast.List, ast.Dict, ast.Set)) and not (getattr(value, 'elts', None) or getattr(value, 'keys', None)):
+        return True
+    if isinstance(value, ast.Call):
+        from .index import call_name
+        if call_name(value) in CONTAINER_CALLS and (not value.args or call_name(value) in ('defaultdict', 'collections.defaultdict')):
+            return True
+    return False
+
+
 def assigned_names(stmts):
     out = set()
     for st in stmts:
@@ -387,7 +403,7 @@ class Reach:
 
     def bind(self, env, name, value):
         val = None
-        if value is not None and self.use_env and name not in self.mutated:
+        if value is not None and self.use_env and name not in self.mutated and not is_container_constructor(value):
             val = subst(value, env)
         # drop bindings that mention the rebound name
         for k in [k for k, v in env.items() if name in names_in(v)]:
